@@ -434,3 +434,52 @@ Proof.
         unfold TInv in *. destruct cur; auto. simpl in HT. unfold is_ctx in HT. rewrite K in HT. exact HT.
 Qed.
 End TypeSound.
+
+(* ---- reported origins versus the channel resolve actually uses ------------------------------------------ *)
+Lemma has_lookup k c : has k c = true -> exists v, lookup k c = Some v.
+Proof. unfold has. destruct (lookup k c); [eauto|discriminate]. Qed.
+Lemma has_false_lookup k (c : ctx) : has k c = false -> lookup k c = None.
+Proof. unfold has. destruct (lookup k c); [discriminate|reflexivity]. Qed.
+
+Lemma classify_config n st name : classify n st name = OConfig <-> has name (n_cfg n) = true.
+Proof.
+  unfold classify. destruct (has name (n_cfg n)); split; intros H; try reflexivity; try discriminate.
+  destruct (nlookup name (key_origin st)); [destruct (smem name (deleted st))|];
+    destruct (has name (pr_defaults (n_proc n))); discriminate.
+Qed.
+
+(* reported "context": the value comes from the context (it is there, and the node configuration does
+   not override it) *)
+Theorem origin_context_truthful n st name j c :
+  classify n st name = OContext j -> has name c = true ->
+  exists v, lookup name c = Some v /\ resolve (n_cfg n) c (pr_defaults (n_proc n)) name = Ok v.
+Proof.
+  intros Hc Hh. destruct (has_lookup _ _ Hh) as [v Hv]. exists v. split; auto.
+  apply resolve_context; auto.
+  destruct (has name (n_cfg n)) eqn:E.
+  - assert (X : classify n st name = OConfig) by (apply classify_config; exact E). congruence.
+  - apply has_false_lookup. exact E.
+Qed.
+
+(* reported "default": truthful exactly when the key is absent from the context *)
+Theorem origin_default_truthful n st name c :
+  classify n st name = ODefault -> has name c = false ->
+  exists v, lookup name (pr_defaults (n_proc n)) = Some v /\
+            resolve (n_cfg n) c (pr_defaults (n_proc n)) name = Ok v.
+Proof.
+  intros Hc Hh. unfold classify in Hc.
+  destruct (has name (n_cfg n)) eqn:E; [discriminate|].
+  assert (Hd : has name (pr_defaults (n_proc n)) = true).
+  { destruct (nlookup name (key_origin st)); [destruct (smem name (deleted st))|];
+      destruct (has name (pr_defaults (n_proc n))); try discriminate; reflexivity. }
+  destruct (has_lookup _ _ Hd) as [v Hv]. exists v. split; auto.
+  apply resolve_default; auto; apply has_false_lookup; auto.
+Qed.
+
+Theorem origin_default_shadowed n st name c v :
+  classify n st name = ODefault -> lookup name c = Some v ->
+  resolve (n_cfg n) c (pr_defaults (n_proc n)) name = Ok v.
+Proof.
+  intros Hc Hv. apply resolve_context; auto. unfold classify in Hc.
+  destruct (has name (n_cfg n)) eqn:E; [discriminate|]. apply has_false_lookup. exact E.
+Qed.
